@@ -70,7 +70,7 @@ def _family(prop, name):
     raise InternalError('no family %s in %s' % (name, prop))
 
 
-class CaseTimeout(Exception):
+class CaseTimeout(BaseException):
     pass
 
 
@@ -79,17 +79,23 @@ def _on_alarm(signum, frame):
 
 
 def safe_run_case(prop, fam, case):
+    # the limit is CPU time of this process (ITIMER_PROF), so that a loaded machine cannot turn a slow case into a
+    # "does not terminate" verdict; a generous wall-clock limit backs it up for waits that burn no CPU
     limit = getattr(fam, 'case_timeout', 120)
     try:
         if limit:
             old = signal.signal(signal.SIGALRM, _on_alarm)
-            signal.setitimer(signal.ITIMER_REAL, limit)
+            oldp = signal.signal(signal.SIGPROF, _on_alarm)
+            signal.setitimer(signal.ITIMER_PROF, limit)
+            signal.setitimer(signal.ITIMER_REAL, max(limit * 20, 900))
         try:
             return fam.run_case(case)
         finally:
             if limit:
+                signal.setitimer(signal.ITIMER_PROF, 0)
                 signal.setitimer(signal.ITIMER_REAL, 0)
                 signal.signal(signal.SIGALRM, old)
+                signal.signal(signal.SIGPROF, oldp)
     except CaseTimeout:
         return 'timeout', [('%s|%s|no-termination-within-%ds' % (prop, fam.name, limit), 'case %s' % jdump(case))], 1
     except InternalError:
@@ -103,10 +109,15 @@ def safe_run_case(prop, fam, case):
                           traceback.format_exc()[-1500:])], 1
 
 
+_WORKER_HISTORY = []   # (family, block) pairs this process has run, in order
+
+
 def _run_block(args):
     prop, famname, block, tier = args
     fam = _family(prop, famname)
     t0 = time.time()
+    before = list(_WORKER_HISTORY)
+    _WORKER_HISTORY.append((famname, block))
     n = steps = extra_states = 0
     casehashes = set()
     outcomes = set()
@@ -127,7 +138,8 @@ def _run_block(args):
                 samples.append({'family': famname, 'case': case, 'outcome': _short(outcome)})
             for sig, detail in vs:
                 if sig not in viols:
-                    viols[sig] = {'family': famname, 'case': case, 'signature': sig, 'detail': detail, 'count': 1}
+                    viols[sig] = {'family': famname, 'case': case, 'signature': sig, 'detail': detail, 'count': 1,
+                                  'block': block, 'history': before}
                 else:
                     viols[sig]['count'] += 1
     except Exception:
@@ -236,7 +248,9 @@ def run_check(prop, tier, seed, only=None, jobs=None):
         path = os.path.join(replay_dir, '%016x.json' % h64(sig))
         with open(path, 'w') as f:
             json.dump({'property': prop, 'tier': tier, 'family': v['family'], 'case': v['case'],
-                       'signature': sig, 'detail': v['detail'], 'count': v['count']}, f, indent=1, default=repr)
+                       'signature': sig, 'detail': v['detail'], 'count': v['count'],
+                       # for results that depend on what the same process did before (state kept between cases)
+                       'block': v.get('block'), 'history': v.get('history', [])}, f, indent=1, default=repr)
         paths[sig] = path
     # replay discipline: an alarm is only raised if a fresh process reproduces it
     confirmed = []
@@ -319,6 +333,28 @@ def replay(prop, path, quiet=False):
     if not quiet:
         print('case: %s' % jdump(rec['case']))
         print('outcome: %s' % _short(outcome, 3000))
+    want = rec.get('signature')
+    if want and rec.get('block') is not None and want not in [s_ for s_, _ in vs]:
+        # not reproduced by the case alone: the result depends on state left behind by earlier cases of the same
+        # process.  Replay the recorded block, then the recorded history of blocks followed by the block.
+        tier = rec.get('tier', 'quick')
+        for plan in ([(rec['family'], rec['block'])], [tuple(h) for h in rec.get('history', [])] + [(rec['family'], rec['block'])]):
+            found = None
+            for famname, block in plan:
+                f2 = _family(prop, famname)
+                for case in f2.cases(block, tier):
+                    o2, v2, _ = safe_run_case(prop, f2, case)
+                    hits = [(s_, d_) for s_, d_ in v2 if s_ == want]
+                    if hits:
+                        found = (case, hits[0])
+                        break
+                if found:
+                    break
+            if found:
+                print('history-dependent: reproduced only after replaying %d block(s) of earlier cases in one process' % len(plan))
+                print('case: %s' % jdump(found[0]))
+                vs = [found[1]]
+                break
     hit = False
     for sig, detail in vs:
         print('violation signature: %s' % sig)
